@@ -47,10 +47,13 @@ ASSETS = {
     4: dict(js=True, css=False, mjs=("shared.js",), mcss={"all": ("shared.css",)}, base=True, css_form="str"),
     # the shared JS file declared in another *form*: a pre-formatted, safe <script> tag (documented Media usage)
     5: dict(js=False, css=True, mjs=("shared.js",), mcss={}, base=False, js_form="safetag"),
+    # the class has no Media of its own: it inherits the Media of an intermediate parent that says extend=False
+    # (so the grandparent's base.js is NOT part of it, the parent's own files are)
+    6: dict(js=True, css=False, mjs=("own",), mcss={"all": ("own",)}, base=False, via_parent=True),
 }
 BASE_MEDIA_JS = ("base.js",)
 NAMES = [("Plain", "Other"), ("with_underscore9", "Plain"), ("Größe", "Plain"), ("Plain", "名前"), ("Same", "Same")]
-COMBOS_A = [(3, 0), (0, 3), (1, 2), (3, 4), (4, 3), (1, 1), (3, 5), (5, 4)]
+COMBOS_A = [(3, 0), (0, 3), (1, 2), (3, 4), (4, 3), (1, 1), (3, 5), (5, 4), (6, 3)]
 WRAPPERS = ("none", "html", "placeholders", "html+css_placeholder", "html+js_placeholder")
 
 
@@ -115,7 +118,11 @@ def build_classes(prog, combo, names):
                 else:
                     m["css"] = {k: [(f"{letter}.css" if f == "own" else f) for f in fs] for k, fs in a["mcss"].items()}
             attrs["Media"] = type("Media", (), m)
-        cls = type(names[i] if i < len(names) else "Third", ((base if a["base"] else Component),), attrs)
+        parent = base if a["base"] else Component
+        if a.get("via_parent"):
+            parent = type("Mid_" + letter, (base,), {"template": "", "__module__": "verif_c04_m%d" % i,
+                                                     "Media": type("Media", (), dict({k: v for k, v in attrs.pop("Media").__dict__.items() if not k.startswith("__")}, extend=False))})
+        cls = type(names[i] if i < len(names) else "Third", (parent,), attrs)
         if letter in registry.all():
             registry.unregister(letter)
         registry.register(letter, cls)
